@@ -48,6 +48,7 @@ partial def decSCond : Sexp → Option (SCond PVal)
     | "contains", [c, i] => return .contains (← decTerm c) (← decTerm i)
     | "truth", [t] => return .truth (← decTerm t)
     | "pred", n :: ts => return .pred (← n.atom?) (← ts.mapM decTerm)
+    | "predc", n :: ts => return .pred (← n.atom?) (← ts.mapM decTerm)   -- Predicate subclass: same node kind
     | "and", c :: cs => return chain .and2 (← decSCond c) (← cs.mapM decSCond)   -- chained_logic(AND, ...)
     | "or", c :: cs => return chain .or2 (← decSCond c) (← cs.mapM decSCond)     -- chained_logic(_optimize_or, ...)
     | "not", [c] => return .not (← decSCond c)
